@@ -122,7 +122,7 @@ TOKEN_RE = re.compile(r'''
  | (?P<op><<=|>>=|\.\.\.|::|->|<<|>>|<=|>=|==|!=|&&|\|\||\+\+|--|\+=|-=|\*=|/=|%=|&=|\|=|\^=|[-+*/%<>=!&|^~?:;,.(){}\[\]])
 ''', re.X)
 
-KEYWORDS_BAD = {'delete', 'new', 'throw', 'try', 'catch', 'do', 'goto', 'using', 'typedef', 'static', 'struct', 'class',
+KEYWORDS_BAD = {'delete', 'throw', 'try', 'catch', 'do', 'goto', 'using', 'typedef', 'static', 'struct', 'class',
                 'co_await', 'co_return', 'asm'}
 BUILTIN = {'unsigned', 'signed', 'long', 'int', 'short', 'char', 'bool', 'double', 'float', 'void'}
 CCAST_TYPES = {'unsigned', 'signed', 'long', 'int', 'short', 'bool', 'double', 'uint_fast8_t', 'uint8_t', 'size_t'}
@@ -411,6 +411,19 @@ class Parser:
             if v == 'false': return ('bool', False)
             if v == 'nullptr' or v == 'NULL': return ('null',)
             if v == 'this': return ('this',)
+            if v == 'new':                       # `new T(args)`: an opaque value (can only initialise a symbolic local)
+                ty = self.try_type()
+                if ty is None: raise Unsupported('new expression')
+                if self.at('('):
+                    depth = 0
+                    while True:
+                        k2, v2 = self.next()
+                        if k2 == 'eof': raise Unsupported('unterminated new expression')
+                        if k2 == 'op' and v2 == '(': depth += 1
+                        elif k2 == 'op' and v2 == ')':
+                            depth -= 1
+                            if depth == 0: break
+                return ('new', ty)
             name = v
             while self.at('::') and self.peek(1)[0] == 'id':
                 self.next(); name += '::' + self.next()[1]
@@ -527,6 +540,7 @@ def key(e, env):
     if k == 'initlist': return '{' + ','.join(key(a, env) for a in e[1]) + '}'
     if k == 'ctor': return '(' + ','.join(key(a, env) for a in e[1]) + ')'
     if k == 'lambda': return '[lambda%d]' % e[1]
+    if k == 'new': return '[new %s]' % e[1]
     raise Unsupported('expression kind ' + k)
 
 
@@ -595,6 +609,7 @@ class Tr:
         # calls that READ AND WRITE state variables (explicit state passing):  key -> dict(term='f {$a} {$b} {0}', updates=['$a','$b'],
         # ret=type|None, args=[types]).  key = full call text for value calls ('GetAcknowledgement()'), callee for statements.
         self.calls_st = dict(t.get('calls_st', {}))
+        self.assigns = dict(t.get('assigns', {}))     # key of an lvalue (e.g. '[new MessageOrigin]->FromZone') -> state variable
         self.appends = dict(t.get('appends', {}))     # 'v.push_back' -> list-typed local v :  v := v ++ [argument]
         self.emits = dict(t.get('emits', {}))        # call key (regex) -> (event list state variable, event term)
         self.fuel = t.get('fuel')                    # gallina nat term bounding every while loop
@@ -796,7 +811,12 @@ class Tr:
         e = unparen(e)
         if e[0] == 'assign':
             l = unparen(e[2])
-            return l[1] if l[0] == 'id' else None
+            if l[0] != 'id':
+                try:
+                    return self.assigns.get(key(l, env))
+                except Unsupported:
+                    return None
+            return l[1]
         if e[0] == 'call':
             fk = key(e[1], None)
             if fk in self.setters: return self.setters[fk]
@@ -1020,6 +1040,8 @@ class Tr:
         vt = self.valtype(ty)
         e2 = env.copy()
         if init is None:
+            if vt and self.types.get(vt, {}).get('elem'):
+                return self.let(name, vt, '(@nil %s)' % P(self.coqtype(self.types[vt]['elem'])), env, R, self.declid())
             if vt:
                 e2.vals[name] = (None, vt, self.declid()); e2.alias.pop(name, None)
             else:
@@ -1059,7 +1081,10 @@ class Tr:
             return R(e2)
         if e[0] == 'assign':
             lhs = unparen(e[2])
-            if lhs[0] != 'id': raise Unsupported('assignment to ' + key(lhs, env))
+            if lhs[0] != 'id':
+                n = self.assigns.get(key(lhs, env))
+                if n is None or e[1] != '=': raise Unsupported('assignment to ' + key(lhs, env))
+                return self.let(n, env.vals[n][1], self.coerce(self.tx(e[3], env), env.vals[n][1]), env, R)
             n = lhs[1]
             rhs = e[3] if e[1] == '=' else ('bin', e[1][:-1], lhs, e[3])
             if n in env.vals:
@@ -1314,7 +1339,8 @@ def translate(target, src):
                 e = unparen(e) if e is not None else None
                 if e is None or e[0] != 'call' or key(e[1], None) != ec or not e[2]: raise Unsupported('return inside the region is not %s(code, ...)' % ec)
                 return region_result(tr.coerce(tr.tx(e[2][0], e2), 'Z'), e2)
-            if e is not None: raise Unsupported('return with a value inside a region')
+            if e is not None and not target.get('exit_ignore_value'): raise Unsupported('return with a value inside a region')
+            if e is not None: tr.notes.append('the value returned when the region is left early is not part of the translation')
             return region_result(True, e2)
 
         def abort(e2):
